@@ -44,6 +44,48 @@ HEADERS_INIT = Contract(
     notes="constructor given a pair list or None (the Mapping branch goes through .items() of a concrete dict at call sites)",
 )
 
+def headers_items(ev, recv, args, kwargs, node):
+    """Mapping.items() of a Headers object (collections.abc mixin over __iter__ / __getitem__): exactly one pair
+    (k, self[k]) per stored key (A-abc-1)"""
+    from pyvc.builtins import mk_quant, ufunc, S, I
+    USED.add("A-abc-1")
+    st = ev.st
+    m = st.obj(st.obj(recv).fields["_dict"])
+    lo = st.fresh_listobj(Tup(Str, Str), "items")
+    n = lo.length
+    st.assume(n >= 0)
+    i, j = z3.Int(st.run.fresh_name("it_i")), z3.Int(st.run.fresh_name("it_j"))
+    kc, vc = lo.cols
+    st.assume(mk_quant("forall", [i], z3.Implies(z3.And(0 <= i, i < n), z3.And(m.has[kc[i]], vc[i] == m.val[0][kc[i]])),
+                       patterns=[kc[i]]))
+    st.assume(mk_quant("forall", [i, j], z3.Implies(z3.And(0 <= i, i < j, j < n), kc[i] != kc[j]), patterns=[z3.MultiPattern(kc[i], kc[j])]))
+    pos = z3.Function(st.run.fresh_name("items.pos"), S, I)
+    k = z3.String(st.run.fresh_name("it_k"))
+    st.assume(mk_quant("forall", [k], z3.Implies(m.has[k], z3.And(0 <= pos(k), pos(k) < n, kc[pos(k)] == k)), patterns=[m.has[k]]))
+    return st.alloc(lo)
+
+
+headers_items.mods = ()
+headers_items.mutates_recv = False
+
+HEADERS_INIT_MAP = Contract(
+    id="Headers.__init__[mapping]", file=D, qualname="Headers.__init__", props=["C20", "C05"],
+    params={"self": ObjT(HD), "headers": ObjT(HD, _dict=Map(Str, Str))},
+    applies=lambda ev, args, kwargs: len(args) > 1 and isinstance(args[1], VRef) and isinstance(ev.st.obj(args[1]), Obj),
+    defs=HDEFS, requires=["LOWER(headers._dict)"],
+    locals={"store": Map(Str, Str)}, init_fields={"_dict": Map(Str, Str)},
+    stub_methods={(HD, "items"): headers_items, (MH, "items"): headers_items},
+    ensures={
+        # constructing a header mapping from another one copies it: same names, same values
+        "copy.keys": "forall((k, Str), has(self._dict, k) == has(headers._dict, k))",
+        "copy.values": "forall((k, Str), implies(has(headers._dict, k), self._dict[k] == headers._dict[k]))",
+        "LOWER": "LOWER(self._dict)",
+    },
+    invariants=HEADERS_INIT.invariants,
+    frame_check=False, assumptions=["A-lower", "A-abc-1"],
+    notes="constructor given another Headers object (typing.Mapping branch): .items() is the collections.abc mixin",
+)
+
 BASE_INIT = Contract(
     id="BaseResponse.__init__", file=R, qualname="BaseResponse.__init__", props=["C05"],
     params={"self": ObjT(R + ":BaseResponse"), "status_code": Int, "headers": Opt(PAIRS)},
@@ -84,7 +126,7 @@ W_RESPONSE_CALL = Contract(
 
 
 def register(reg):
-    for c in (HEADERS_INIT, BASE_INIT, A_RESPONSE_CALL, W_RESPONSE_CALL):
+    for c in (HEADERS_INIT, HEADERS_INIT_MAP, BASE_INIT, A_RESPONSE_CALL, W_RESPONSE_CALL):
         reg.add(c)
     reg._opaque_index["StatusMap"] = c02.status_index
     register2(reg)
